@@ -58,6 +58,108 @@ def burst_cfg(resizes, dial, ordered):
     return sim_cfg(resizes, dial, 0, ordered).replace("ACTION_CONSTRAINT UrgentAccept", "ACTION_CONSTRAINT UrgentAccept BurstAtCap")
 
 
+# ---- cap values at and above the capacity of the weighted semaphore (maxCapacity)
+BSIZE = 12                      # Size of the boundary configurations of the model
+BCAPS = "{1,2,3,11,12,13,16}"   # small values, Size-1, Size, Size+1, far above
+FAR = 2000000000                # "far above" on the real code (maxConnections is a uint32; TLC integers are 32 bit signed)
+
+
+def boundary_cfg(resizes, dial, ordered):
+    """generation profile BoundaryFirst (specs/ConnCap.tla): Size = 12 stands for maxCapacity, the cap values are small ones and
+    Size-1, Size, Size+1, far above; the first cap change requests one of the latter, everything else is free (connections open
+    or not, later values, overlapping or not)"""
+    return ("SPECIFICATION GSpec\nCONSTANTS\n  Size = %d\n  Caps = %s\n  InitCaps = {1,2,3,11,12}\n  MaxResize = %d\n  MaxDial = %d\n"
+            "  MaxErr = 0\n  MaxDbl = 0\n  MaxRestart = 0\n  Ordered = %s\nACTION_CONSTRAINT UrgentAccept BoundaryFirst\n" % (
+                BSIZE, BCAPS, resizes, dial, "TRUE" if ordered else "FALSE"))
+
+
+def max_capacity():
+    """maxCapacity of the tree under test (pkg/util/sem/semaphore.go)"""
+    try:
+        src = open(os.path.join(vlib.REPO, PKG_SEM, "semaphore.go")).read()
+    except OSError:
+        return 20000000
+    m = re.search(r"\bmaxCapacity\b[^=\n]*=\s*([0-9_]+)", src)
+    return int(m.group(1).replace("_", "")) if m else 20000000
+
+
+def real_value(v, mc):
+    """model value of a boundary configuration -> value used on the real Semaphore"""
+    if v < BSIZE - 1:
+        return v
+    if v <= BSIZE + 1:
+        return mc + (v - BSIZE)
+    return FAR
+
+
+def bclass(v):
+    """s small, m maxCapacity-1, M maxCapacity, p maxCapacity+1, P far above"""
+    return "s" if v < BSIZE - 1 else "m" if v == BSIZE - 1 else "M" if v == BSIZE else "p" if v == BSIZE + 1 else "P"
+
+
+def to_real(beh, mc):
+    """a behaviour of a boundary configuration with its cap values replaced by the real ones"""
+    out = []
+    for s in beh:
+        s = dict(s)
+        if s.get("a") == "init":
+            s["cap"] = real_value(s["cap"], mc)
+        elif s.get("a") == "setmax":
+            s["n"], s["c"] = real_value(s["n"], mc), real_value(s["c"], mc)
+        out.append(s)
+    return out
+
+
+def bseq(beh):
+    """class sequence of the caps of a behaviour: initial cap, then every requested value"""
+    return "".join(bclass(s["cap"]) if s["a"] == "init" else bclass(s["n"]) for s in beh if s["a"] in ("init", "setmax"))
+
+
+BOUNDARY_NEED = ("ms", "Ms", "ps", "Ps", "pM", "Pm", "PM", "pp", "MM")   # adjacent requests that must occur in the selected schedules
+
+
+_BCACHE = {}
+
+
+def boundary_behaviours(ctx, ordered, limit):
+    """TLC behaviours of the boundary profile with at least two cap changes, one of every sequence of value classes (and of
+    every pattern of overlapping) before any gets a second one; vacuity: every boundary class followed by a small value etc."""
+    key = (id(ctx), ordered)
+    if key not in _BCACHE:
+        nb = 500 if ctx.quick else 4000
+        behs = ctx.tlc_simulate("ConnCap_Gen", boundary_cfg(3, 4, ordered), num=nb, depth=22, seed=ctx.seed + 86028121)
+        if not ctx.quick:
+            behs += ctx.tlc_simulate("ConnCap_Gen", boundary_cfg(2, 3, ordered), num=nb // 2, depth=14, seed=ctx.seed + 67867967)
+        ok, seen = [], set()
+        for b in behs:
+            if not b or b[0].get("a") != "init" or sum(1 for s in b if s["a"] == "setmax") < 2:
+                continue
+            k = vlib.sha(b)
+            if k not in seen:
+                seen.add(k)
+                ok.append(b)
+        _BCACHE[key] = ok
+    ok = _BCACHE[key]
+
+    def pairs_of(b):
+        q = bseq(b)
+        return {q[i:i + 2] for i in range(1, len(q) - 1)}
+    first, missing = [], []
+    for p in BOUNDARY_NEED:       # one with connections open at the second of the two calls if there is one
+        cands = [b for b in ok if p in pairs_of(b)]
+        busy = [b for b in cands if any(s["a"] == "setmax" and s["usage"] > 0 and s["i"] > 1 for s in b)]
+        if not cands:
+            missing.append(p)
+        elif (busy or cands)[0] not in first:
+            first.append((busy or cands)[0])
+    if missing:
+        ctx.inconclusive("TLC behaviours of the boundary profile contain no successive cap changes of the classes %s "
+                         "(s small, m maxCapacity-1, M maxCapacity, p maxCapacity+1, P far above)" % missing)
+    sel = stratified(ok, lambda b: (bseq(b), rz_kinds(b).lower()), limit, first=first)
+    ctx.cov["boundary_class_sequences"] = len({bseq(b) for b in sel})
+    return sel
+
+
 def rz_kinds(beh):
     """The kinds of the SetMaxCount calls of a behaviour, from the model's step records: G grow, E same value as configured,
     S shrink not below the usage (completes at once), B shrink below the usage (blocks until connections close); a lower-case
@@ -101,7 +203,7 @@ ALL_ACTIONS = {"init", "dial", "acq", "accept", "err", "close", "setmax", "tuner
                "close2", "crel", "cnop"}
 
 TRACE_CFG = ("SPECIFICATION TSpec\nCONSTRAINT HWM\nPOSTCONDITION Accepted\n"
-             "INVARIANTS NoAcceptAboveCapObserved CapHoldsWhileUnchanged NeverAboveEveryCap NoDrop ReleaseReusable\n")
+             "INVARIANTS NoAcceptAboveCapObserved CapHoldsWhileUnchanged NeverAboveEveryCap NoDrop ReleaseReusable ChangesApplied\n")
 
 
 def hook_present():
@@ -129,13 +231,28 @@ def run(ctx):
                        "Close). Server level: TLC-generated reload sequences mixing run-time cap changes and restarting reloads (port / "
                        "keepAliveTimeout changed: a new listener), one of every class of the last reload (direction x where its value was "
                        "seen before: last run-time value before a restart, this listener, an earlier listener, a creation cap, never), "
-                       "the cap the server ends with probed with cap+1 clients (thorough: after every reload)")
+                       "the cap the server ends with probed with cap+1 clients (thorough: after every reload). Cap values at and "
+                       "above the capacity of the weighted semaphore (maxCapacity-1, maxCapacity, maxCapacity+1, 2e9) followed by lower "
+                       "ones: model constant Size = 12 with Caps = small values + {11,12,13,16} (Clamp as part of SetMaxCount / NewSem, "
+                       "invariants ChangesApplied, NoDoomedResize), TLC schedules of profile BoundaryFirst mapped to the real values and "
+                       "executed on the real Semaphore, LimitListener and (run-time values) HTTPServer; at the end of every schedule / "
+                       "case a barrier - nothing held, no acquirer left - at which every change must be applied (a change whose "
+                       "background goroutine is blocked inside the semaphore in two successive goroutine dumps, none runnable, is "
+                       "never applied: event rzstuck, clause ChangesApplied) and the semaphore must hold exactly the last cap")
     ctx.assumptions += [
         "a cap change counts as applied when the done channel of SetMaxCount is closed; between request and completion every cap "
         "from the newest fully applied one on may justify an accept (ConnCapContract!CapsInEffect)",
         "open connections are counted conservatively: from after Accept/Acquire returned (client side: first response byte) until "
         "before Close/Release is called",
-        "Size of the weighted semaphore (maxCapacity = 20 000 000) is modelled by a constant larger than every reachable effective cap",
+        "Size of the weighted semaphore (maxCapacity = 20 000 000) is modelled by a constant larger than every reachable effective cap; "
+        "in the boundary configurations Size = 12 stands for maxCapacity and the model values 11, 12, 13, 16 for maxCapacity-1, "
+        "maxCapacity, maxCapacity+1 and 2 000 000 000 on the real code (differences between boundary and small values exceed every "
+        "reachable usage in both, so every comparison of the weighted semaphore comes out the same)",
+        "a requested change counts as never applied only when decided at a barrier: every token given back (the calls have returned), "
+        "no acquirer left, and all background goroutines of SetMaxCount blocked in a channel operation (none runnable) in two goroutine "
+        "dumps in a row - or, if they cannot be told from the dump, after a 20 s deadline; caps above 16 are probed from below only",
+        "a harness process that dies of x/sync's panic 'released more than held' is a violation (the harnesses release only what "
+        "they acquired): with a cap at maxCapacity a surplus release crashes the process instead of creating a token",
         "HTTP/3 is outside the claim (quic-go stub build)",
         "a restarting reload is carried out with nobody connected (the harness hangs up first); from the restart on the cap in effect "
         "is the maxConnections of the new spec, whatever was requested at run time before (ConnCapContract!CRestart)",
@@ -153,6 +270,7 @@ def run(ctx):
         _sem_overlap(ctx, state)
     if ctx.phase("panic"):
         _sem_panic(ctx, state)
+        _sem_init(ctx, state)
     if ctx.phase("ll"):
         _ll_tv(ctx, state)
     if ctx.phase("replay"):
@@ -208,6 +326,17 @@ def _mc(ctx, state):
     r = ctx.tlc_mc("ConnCap_Gen", mc_cfg(False, 2, dial, 0, sequential=True, dbl=1 if q else 2, restart=1),
                    label="impl model with overlapping Close calls and restarts: contract + impl invariants", timeout=1500)
     ctx.log("impl model (overlapping Close calls, restarts): %d distinct states, all clauses hold" % r.distinct)
+    # (f) cap values at and above maxCapacity (Size-1, Size, Size+1, far above; also as the cap a listener is created with) in
+    #     every order with small ones: the effective cap is min(requested, maxCapacity), every clause of the contract holds and
+    #     every change is applied (ChangesApplied, NoDoomedResize: no adjustment asks the semaphore for more than it has)
+    bcaps, binit = "{1,2,11,12,13,16}", "{1,2,12,13,16}"
+    r = ctx.tlc_mc("ConnCap_Gen", mc_cfg(True, 2 if q else 3, 2, 0, caps=bcaps, size=BSIZE, initcaps=binit),
+                   label="impl model, cap values around maxCapacity, ordered tuners: contract + impl invariants", timeout=1500)
+    ctx.log("impl model (caps around maxCapacity, ordered tuners): %d distinct states, all clauses hold" % r.distinct)
+    if not q:
+        r = ctx.tlc_mc("ConnCap_Gen", mc_cfg(False, 3, 2, 0, sequential=True, caps=bcaps, size=BSIZE, initcaps=binit),
+                       label="impl model, cap values around maxCapacity, resizes not overlapping: contract + impl invariants", timeout=1500)
+        ctx.log("impl model (caps around maxCapacity, sequential resizes): %d distinct states, all clauses hold" % r.distinct)
     # (d) the model of the repair (tuners in request order) satisfies everything
     if q:
         cfg_d = mc_cfg(True, rz, dial, 1)
@@ -387,12 +516,28 @@ def _race(ctx, level, out, what):
     ctx.inconclusive("C17 %s harness: the race detector reports a race inside the harness:\n%s" % (level, out[-3000:]))
 
 
+def _crashed(ctx, level, out, what):
+    """The harness process died of x/sync's panic "released more than held": the code under test gave back more tokens than it
+    took (the harnesses release only what they acquired themselves).  With small caps a surplus token only shows as an accept
+    above the cap; with a cap at maxCapacity (part of the histories since the boundary values were added) the weighted
+    semaphore's counter goes below zero and the process - a server with every established connection - dies."""
+    if "panic: semaphore: released more than held" not in out:
+        return False
+    i = out.find("panic: semaphore: released more than held")
+    ctx.violation({"kind": "panic", "level": level, "clause": "NoDrop", "pattern": "released-more-than-held"},
+                  "%s: the process panics (x/sync: released more than held): more tokens were given back than taken; a server "
+                  "would die with every established connection" % what, out[max(0, i - 500):i + 3500])
+    return True
+
+
 def _sem_tv(ctx, state):
     n = 40 if ctx.quick else 400
     tp = ctx.path("c17_sem_trace.ndjson")
     rc, out = ctx.go_test(PKG_SEM, "^TestVerifC17SemTrace$", env={"VERIF_OUT": tp, "VERIF_N": n}, tags=state["tags"], race=not ctx.quick, timeout=900)
     if "DATA RACE" in out:
         return _race(ctx, "sem", out, "data race reported in Semaphore under concurrent Acquire/Release/SetMaxCount")
+    if rc != 0 and _crashed(ctx, "sem", out, "Semaphore under concurrent Acquire/Release/SetMaxCount"):
+        return
     if rc != 0:
         ctx.inconclusive("C17 semaphore trace harness failed:\n" + out[-3000:])
     _validate(ctx, state, "sem", tp, "Semaphore under concurrent Acquire/Release/SetMaxCount")
@@ -467,7 +612,14 @@ def overlap_cases(ctx, state):
         ctx.inconclusive("TLC behaviours contain no burst of cap changes of the pattern(s) %s (B shrink below usage, E same value, G grow)" % missing)
     # one case of every (sequence of call kinds, no value above the initial cap) before any class gets a second one
     sel = stratified(bursts, lambda c: (case_kinds(c), max(c["rz"]) <= c["cap"]), 110 if ctx.quick else 700)
-    return fixed + sel + general[:30 if ctx.quick else 300]
+    # cap values at and above maxCapacity in the sequence of requests (boundary profile), mapped to the real values
+    mc = max_capacity()
+    n0 = len(cases)
+    for b in boundary_behaviours(ctx, False, 40 if ctx.quick else 300):
+        add(to_real(b, mc))
+    bnd = cases[n0:]
+    ctx.log("semaphore level: %d cases with cap values around maxCapacity = %d" % (len(bnd), mc))
+    return fixed + sel + general[:30 if ctx.quick else 300] + bnd
 
 
 def case_kinds(c):
@@ -484,6 +636,8 @@ def _sem_overlap(ctx, state):
     inp = ctx.write_ndjson("c17_overlap_cases.ndjson", cases)
     tp = ctx.path("c17_overlap_trace.ndjson")
     rc, out = ctx.go_test(PKG_SEM, "^TestVerifC17SemOverlap$", env={"VERIF_IN": inp, "VERIF_OUT": tp}, tags=state["tags"], timeout=900)
+    if rc != 0 and _crashed(ctx, "sem-overlap", out, "Semaphore with overlapping SetMaxCount calls"):
+        return
     if rc != 0:
         ctx.inconclusive("C17 semaphore overlap harness failed:\n" + out[-3000:])
     ctx.log("semaphore level: %d overlapping-resize cases from TLC behaviours (%s)" % (len(cases), "gated" if state["hook"] else "GOMAXPROCS(1)"))
@@ -511,13 +665,51 @@ def _sem_panic(ctx, state):
     ctx.inconclusive("C17 maxCapacity child test ended unexpectedly:\n" + out[-3000:])
 
 
+def _sem_init(ctx, state):
+    """A Semaphore created with a cap around maxCapacity (NewSem(maxCapacity-1 / maxCapacity / maxCapacity+1 / far above)), used
+    and resized, in a process of its own (a panic of x/sync ends the process)."""
+    mc = max_capacity()
+    vals = [mc - 1, mc, mc + 1, FAR]
+    for v in vals:
+        op = ctx.path("c17_init_%d.ndjson" % v)
+        rc, out = ctx.go_test(PKG_SEM, "^TestVerifC17SemInitChild$", env={"VERIF_C17_CHILD": 1, "VERIF_C17_INIT": v, "VERIF_C17_HELD": 1 + ctx.seed % 3,
+                                                                        "VERIF_OUT": op}, tags=state["tags"], timeout=300)
+        ctx.evals(1)
+        res = {r["k"]: r for r in ctx.read_ndjson(op) if r.get("k")} if os.path.exists(op) else {}
+        above = v > mc
+        sig = {"kind": "panic" if "panic: " in out else "trace", "level": "sem", "pattern": "initial-cap-above-maxcapacity" if above else "initial-cap-near-maxcapacity"}
+        if rc == 0 and res.get("end", {}).get("done") and res.get("end", {}).get("probe"):
+            ctx.traces(1)
+            ctx.nontrivial("initial-cap-%s" % bclass(BSIZE + (v - mc) if v != FAR else BSIZE + 4))
+            continue
+        if "panic: semaphore: released more than held" in out:
+            sig["clause"] = "NoDrop"
+            ctx.violation(sig, "Semaphore created with cap %d (maxCapacity = %d), %d token(s) acquired and released: the process panics in Release "
+                          "(x/sync: released more than held); a server with this maxConnections dies when a connection is closed, and with it "
+                          "every established connection" % (v, mc, 1 + ctx.seed % 3), out[-3000:])
+            continue
+        if rc == 0 and res.get("end") is not None and not res["end"].get("done"):
+            sig["clause"] = "ChangesApplied"
+            ctx.violation(sig, "Semaphore created with cap %d (maxCapacity = %d): a later SetMaxCount(2) is never applied although nothing is held "
+                          "(%s)" % (v, mc, res["end"].get("how")), res)
+            continue
+        if rc == 0 and res.get("end") is not None and not res["end"].get("probe"):
+            sig["clause"] = "ReleaseReusable"
+            ctx.violation(sig, "Semaphore created with cap %d (maxCapacity = %d), then SetMaxCount(2) applied with nothing held: %s" % (
+                v, mc, res["end"].get("what")), res)
+            continue
+        ctx.inconclusive("C17 initial-cap child test ended unexpectedly:\n" + out[-3000:])
+
+
 def _ll_tv(ctx, state):
     n = 40 if ctx.quick else 300
     tp = ctx.path("c17_ll_trace.ndjson")
-    rc, out = ctx.go_test(PKG_LL, "^TestVerifC17LLTrace$", env={"VERIF_OUT": tp, "VERIF_N": n, "VERIF_TCP": 0 if ctx.quick else 1},
+    rc, out = ctx.go_test(PKG_LL, "^TestVerifC17LLTrace$", env={"VERIF_OUT": tp, "VERIF_N": n, "VERIF_TCP": 0 if ctx.quick else 1, "VERIF_C17_MAXCAP": max_capacity()},
                           tags=state["tags"], race=not ctx.quick, timeout=900)
     if "DATA RACE" in out:
         return _race(ctx, "ll", out, "data race reported in LimitListener under concurrent accept/close/resize")
+    if rc != 0 and _crashed(ctx, "ll", out, "LimitListener under concurrent connects, closes and cap changes"):
+        return
     if rc != 0:
         ctx.inconclusive("C17 listener trace harness failed:\n" + out[-3000:])
     _validate(ctx, state, "ll", tp, "LimitListener under concurrent connects, closes and cap changes")
@@ -588,7 +780,11 @@ def schedules(ctx, state, ordered=False):
         ctx.inconclusive("TLC behaviours contain only %d schedules in which the server fills up after two overlapping Close calls" % len(dsel))
     # (order of the two Close calls coming out relative to a cap change / an accept in between: both occur)
     dsel = stratified(dsel, lambda b: tuple(s["a"] for s in b if s["a"] in ("close2", "crel", "cnop", "setmax")), 30 if ctx.quick else 200)
-    return general + stratified(uniq(bursts), bkey, 80 if ctx.quick else 900) + dsel
+    # cap values at and above maxCapacity in the sequence of requests (profile BoundaryFirst), with the real values
+    mc = max_capacity()
+    bnd = [to_real(b, mc) for b in boundary_behaviours(ctx, ordered, 30 if ctx.quick else 250)]
+    ctx.cov["boundary_schedules"] = len(bnd)
+    return general + stratified(uniq(bursts), bkey, 80 if ctx.quick else 900) + dsel + bnd
 
 
 def _ll_replay(ctx, state):
@@ -608,6 +804,8 @@ def _ll_replay_batch(ctx, state, ordered):
             fh.write(jdump(b) + "\n")
     tp = ctx.path("c17_replay_trace%s.ndjson" % ("_ordered" if ordered else ""))
     rc, out = ctx.go_test(PKG_LL, "^TestVerifC17LLReplay$", env={"VERIF_IN": inp, "VERIF_OUT": tp}, tags=state["tags"], timeout=900)
+    if rc != 0 and _crashed(ctx, "ll-replay-ordered" if ordered else "ll-replay", out, "LimitListener executing a TLC schedule"):
+        return {"behaviours": len(behs), "realised": 0, "diverged": 0}
     if rc != 0:
         ctx.inconclusive("C17 schedule replay harness failed:\n" + out[-3000:])
     notes, ev, sigs = _validate(ctx, state, "ll-replay-ordered" if ordered else "ll-replay", tp, "LimitListener executing a TLC schedule")
@@ -684,7 +882,23 @@ def reload_sequences(ctx):
     if missing:
         ctx.inconclusive("TLC behaviours contain no reload sequence of the class(es) %s" % missing)
     ctx.cov["reload_sequence_classes"] = len(classes)
-    return stratified(seqs, seq_class, 14 if ctx.quick else 40)
+    sel = stratified(seqs, seq_class, 14 if ctx.quick else 40)
+    # run-time values at and above maxCapacity followed by lower ones (projection of TLC behaviours of the boundary profile: the
+    # cap the server is created with - a small one - and the values requested), one of every sequence of value classes
+    mc = max_capacity()
+    bnd, seen = [], set()
+    for b in boundary_behaviours(ctx, False, 10 ** 6):
+        q = bseq(b)
+        if q[0] != "s" or q in seen or not any(q[i] in "mMpP" and q[i + 1] == "s" for i in range(1, len(q) - 1)):
+            continue
+        seen.add(q)
+        rb = to_real(b, mc)
+        bnd.append({"cap": rb[0]["cap"], "ops": [{"k": "rt", "n": s_["n"]} for s_ in rb[1:] if s_["a"] == "setmax"]})
+    bnd = stratified(bnd, lambda sq: tuple(min(o["n"], mc + 2) for o in sq["ops"][:2]), 4 if ctx.quick else 16)
+    if len(bnd) < 4:
+        ctx.inconclusive("TLC behaviours of the boundary profile give only %d reload sequences with a value around maxCapacity followed by a small one" % len(bnd))
+    ctx.cov["boundary_reload_sequences"] = len(bnd)
+    return sel + bnd
 
 
 def _server(ctx, state):
